@@ -49,6 +49,7 @@ from partitura.io.matchfile_utils import (
     interpret_as_time_signature,
     format_time_signature,
     format_time_signature_list,
+    format_time_signature_or_list,
     MatchKeySignature,
     interpret_as_key_signature,
     format_key_signature_v0_1_0,
@@ -124,7 +125,7 @@ INFO_LINE = {
         ),
         "timeSignature": (
             interpret_as_time_signature,
-            format_time_signature,
+            format_time_signature_or_list,
             MatchTimeSignature,
         ),
         **default_infoline_attributes,
@@ -137,7 +138,7 @@ INFO_LINE = {
         ),
         "timeSignature": (
             interpret_as_time_signature,
-            format_time_signature,
+            format_time_signature_or_list,
             MatchTimeSignature,
         ),
         **default_infoline_attributes,
@@ -150,7 +151,7 @@ INFO_LINE = {
         ),
         "timeSignature": (
             interpret_as_time_signature,
-            format_time_signature,
+            format_time_signature_or_list,
             MatchTimeSignature,
         ),
         **default_infoline_attributes,
